@@ -295,7 +295,7 @@ func C13(r *drv.Run) {
 				srcs[k] = []byte(v.src)
 			}
 		}
-		c := wire.Case{Op: "astcmp", Srcs: srcs, Texts: texts, StepBudget: 300000, WantBC: true}
+		c := wire.Case{Op: "astcmp", Srcs: srcs, Texts: texts, StepBudget: 60000, WantBC: true}
 		return &drv.Item{Case: c, Check: func(res *wire.Result) { c13CheckVariants(r, vs, srcs, texts, &c, res, i) }}
 	})
 	c13Histories(r, nhist)
